@@ -642,6 +642,29 @@ def run(ck: Check):
         check_axioms(ck, rng, fam, X, Y, nb, d, c[5], c[6])
         check_formulas(ck, fam, X, Y, nb, d, c[5], c[6])
         cases.append(c)
+    # equal-SHAPED samples that differ by less than the usual closeness tolerances (own generator: independent of the
+    # draws above): tiny magnitudes, and unit-scale spreads carried by a large offset. Different samples are different.
+    import random as _random
+
+    prng = _random.Random(101010)
+    for k in range(8 if not thorough else 40):
+        n = prng.choice([12, 25, 40])
+        nb = prng.choice([3, 5, 10])
+        if k % 2 == 0:
+            sc = prng.choice([1e-9, 3e-10])
+            X = [sc * prng.uniform(0, 1) for _ in range(n)]
+            Y = [sc * prng.uniform(0.3, 1.6) for _ in range(n)]
+        else:
+            off = prng.choice([1e6, 1e7])
+            X = [off + prng.uniform(0, 1) for _ in range(n)]
+            Y = [off + prng.uniform(0.4, 2.0) for _ in range(n)]
+        c = one_case(ck, "near_equal", X, Y, nb)
+        d = c[4]
+        ck.case(dict(family="near_equal", n=n, m=n, num_bins=nb, X_head=X[:4], Y_head=Y[:4], distances={k_: d[k_] for k_ in DISTS}), nontrivial=True, key=repr((X, Y, nb)))
+        ck.count("family_near_equal")
+        check_axioms(ck, prng, "near_equal", X, Y, nb, d, c[5], c[6])
+        check_formulas(ck, "near_equal", X, Y, nb, d, c[5], c[6])
+        cases.append(c)
     res = coq_eval("C10", HDR, [model_expr(c[1], c[2], c[3], c[5], c[6]) for c in cases], shard=40 if thorough else 20)
     for c, r in zip(cases, res):
         compare_model(ck, c, r)
